@@ -58,7 +58,7 @@ GRAMMARS = [
                 ('e.r == 1 && %s && T_res[1][%s] == 1' % (OK0, Q0), 'first alternative kept')]}),
     ('star', N0('star< %s >, %s' % (N1, S1)),
      {'all': ALL, 'fold': {100: 'fold', 101: 'store'}, 'discard': {100: 'discard', 101: 'store'}, 'remove': {100: 'store', 101: 'remove'}},
-     {'cap': 4, 'maxch': 3, 'maxd': 2, 'maxn': 5,
+     {'cap': 4, 'maxch': 3, 'maxd': 2, 'maxn': 5, 'thorough': {'cap': 5, 'maxch': 4, 'maxn': 6},
       'reach': [('e.r == 1 && ts_n >= 3', 'several sibling nodes'), ('e.r == 1 && ts_n <= 1', 'repetition matched nothing')]}),
     ('at', N0('at< %s >, %s' % (N1, N1)),
      {'all': ALL, 'inner_only': {101: 'store'}},
@@ -81,6 +81,11 @@ GRAMMARS = [
      {'cap': 4, 'maxch': 2, 'maxd': 1, 'maxn': 3, 'stack': ['all'],
       'reach': [('e.r == 1 && %s && T_res[1][%s] == 0 && ts_id[0] == 102' % (OK0, Q0), 'exception-aborted branch left no node, the alternative builds the tree'),
                 ('e.r == 1 && ts_id[0] == 101', 'guarded branch kept'), ('e.r == 3', 'foreign exception passes the guard')]}),
+    ('trycatch_seq', 'sor< try_catch_type_return_false< verif_exc, seq< %s, must< %s > > >, %s >' % (N1, S1, N2),
+     {'all': ALL},
+     {'cap': 5, 'maxch': 2, 'maxd': 1, 'maxn': 3,
+      'reach': [('e.r == 1 && %s && T_res[1][%s] == 0 && ts_id[0] == 102' % (OK0, Q0), 'exception passed an unselected frame that held a finished node, the alternative builds the tree'),
+                ('e.r == 1 && ts_id[0] == 101', 'guarded branch kept')]}),
     ('leaf', N0('%s, named< 3, %s, opt< %s > >, %s' % (N1, S1, S1, N2)),
      {'leaf_out': {100: 'store', 101: 'store', 102: 'store'}},
      {'cap': 3, 'maxch': 2, 'maxd': 2, 'maxn': 4,
@@ -88,6 +93,7 @@ GRAMMARS = [
     ('recursive', 'R',
      {'all': {150: 'store'}, 'fold': {150: 'fold'}},
      {'cap': 7, 'maxch': 1, 'maxd': 3, 'maxn': 4, 'N': 2, 'K': 2, 'defs': {'R': (150, 'sor< seq< sym<0>, R >, sym<1> >')}, 'maxrec': 3, 'mem_gb': 6,
+      'thorough': {'N': 3, 'maxrec': 4, 'cap': 9, 'maxd': 4, 'maxn': 5},
       'reach': [('e.r == 0', 'no tree')],
       'reach_tag': {'all': [('e.r == 1 && ts_n == 3', 'recursive rule nested three levels')],
                     'fold': [('e.r == 1 && ts_n == 1 && T_res[0][sp_start] == 1 && T_res[0][T_np[0][sp_start]] == 1', 'three nested matches of the recursive rule folded into one node')]}}),
@@ -124,11 +130,12 @@ def plan(ctx):
             continue
         for tag, sel in sels.items():
             o = dict(opts)
-            n = o.get('N', 3) if ctx.quick() else o.get('N_thorough', o.get('N', 3) + 1)
+            if not ctx.quick():
+                o['N'] = o.get('N', 3) + 1
+                o.update(opts.get('thorough', {}))
+            n = o.get('N', 3)
             K = o.get('K', 3)
             cap, maxch, maxd, maxn = o['cap'], o['maxch'], o['maxd'], o['maxn']
-            if not ctx.quick():
-                cap, maxch, maxn = cap + o.get('grow', 0), maxch + o.get('grow', 0), maxn + o.get('grow', 0)
             action = o.get('action')
             defs = o.get('defs')
             htext, gen = treegen.harness_text(gtext, sel, doc, n, K, maxch, maxd, maxn, defs=defs, maxrec=o.get('maxrec', 3), maxres=o.get('maxres', 3),
